@@ -175,14 +175,54 @@ func main() {
 	genSet := func() ([]string, []scheduling.Requirements, map[string][]call) {
 		n := c.Rand.Range(1, 4)
 		var items []string
-		reqs := scheduling.NewRequirements()
 		js := map[string][]call{}
-		for i := 0; i < n; i++ {
-			k := kit.Pick(c.Rand, keys)
-			cl := kit.Pick(c.Rand, singles)
-			reqs.Add(cl.mk(k))
-			items = append(items, kit.GPair(kit.GStr(k), cl.gallina()))
-			js[k] = append(js[k], cl)
+		mode := c.Rand.Intn(4)
+		var reqs scheduling.Requirements
+		switch mode {
+		case 1:
+			// NewLabelRequirements: a label map (distinct keys, may contain an alias next to its canonical key)
+			labels := map[string]string{}
+			for i := 0; i < n; i++ {
+				labels[kit.Pick(c.Rand, keys)] = kit.Pick(c.Rand, []string{"a", "b", "1"})
+			}
+			for _, k := range kit.SortedKeys(labels) {
+				cl := call{Op: "In", Vals: []string{labels[k]}}
+				items = append(items, kit.GPair(kit.GStr(k), cl.gallina()))
+				js[k] = append(js[k], cl)
+			}
+			reqs = scheduling.NewLabelRequirements(labels)
+			c.Count("compat:built-by=NewLabelRequirements")
+		case 2, 3:
+			var with []v1.NodeSelectorRequirementWithMinValues
+			var plain []corev1.NodeSelectorRequirement
+			for i := 0; i < n; i++ {
+				k := kit.Pick(c.Rand, keys)
+				cl := kit.Pick(c.Rand, singles)
+				if mode == 3 {
+					cl.MinV = nil
+				}
+				items = append(items, kit.GPair(kit.GStr(k), cl.gallina()))
+				js[k] = append(js[k], cl)
+				with = append(with, v1.NodeSelectorRequirementWithMinValues{Key: k, Operator: corev1.NodeSelectorOperator(cl.Op), Values: append([]string(nil), cl.Vals...), MinValues: cl.MinV})
+				plain = append(plain, corev1.NodeSelectorRequirement{Key: k, Operator: corev1.NodeSelectorOperator(cl.Op), Values: append([]string(nil), cl.Vals...)})
+			}
+			if mode == 2 {
+				reqs = scheduling.NewNodeSelectorRequirementsWithMinValues(with...)
+				c.Count("compat:built-by=NewNodeSelectorRequirementsWithMinValues")
+			} else {
+				reqs = scheduling.NewNodeSelectorRequirements(plain...)
+				c.Count("compat:built-by=NewNodeSelectorRequirements")
+			}
+		default:
+			reqs = scheduling.NewRequirements()
+			for i := 0; i < n; i++ {
+				k := kit.Pick(c.Rand, keys)
+				cl := kit.Pick(c.Rand, singles)
+				reqs.Add(cl.mk(k))
+				items = append(items, kit.GPair(kit.GStr(k), cl.gallina()))
+				js[k] = append(js[k], cl)
+			}
+			c.Count("compat:built-by=Add")
 		}
 		return items, []scheduling.Requirements{reqs}, js
 	}
